@@ -31,6 +31,9 @@ func init() {
 }
 
 func runC15(w *World, r *Report) {
+	hrDumpEndpointVerbatim(w, r, "R6")
+	hrTreeRebuiltOnlyWhenNewer(w, r, "R3")
+	hrConvergenceKeepsParametricChild(w, r, "R3")
 	hrNormalisedPathSpelling(w, r, "R3")
 	hrTimestampUTC(w, r, "R5")
 	hrNormalizeTreeInsertsAll(w, r, "R3")
